@@ -17,6 +17,10 @@ import (
 	"time"
 )
 
+// Out is where the checks print (the real standard output; the driver points
+// os.Stdout at /dev/null so that the engine's own prints do not interleave).
+var Out = os.Stdout
+
 // Root is the /verif directory (the working directory of every check).
 var Root = func() string {
 	if r := os.Getenv("VERIF_ROOT"); r != "" {
@@ -224,9 +228,9 @@ func (c *Ctx) Violation(id, class string, detail map[string]interface{}) {
 	p := filepath.Join(dir, name)
 	b, _ := json.MarshalIndent(detail, "", " ")
 	os.WriteFile(p, b, 0o644)
-	fmt.Printf("VIOLATION property=%s replay=%s\n", c.Prop, p)
+	fmt.Fprintf(Out, "VIOLATION property=%s replay=%s\n", c.Prop, p)
 	if s, ok := detail["summary"]; ok {
-		fmt.Printf("  %v\n", s)
+		fmt.Fprintf(Out, "  %v\n", s)
 	}
 }
 
@@ -246,7 +250,7 @@ func (c *Ctx) Probe(name string, fails bool, what string, detail map[string]inte
 		if desc == "" {
 			desc = what
 		}
-		fmt.Printf("KNOWN-FINDING: property=%s probe=%s %s\n", c.Prop, name, desc)
+		fmt.Fprintf(Out, "KNOWN-FINDING: property=%s probe=%s %s\n", c.Prop, name, desc)
 		c.mu.Lock()
 		c.knownHit = append(c.knownHit, name)
 		c.mu.Unlock()
@@ -335,9 +339,9 @@ func (c *Ctx) Finish() int {
 		os.WriteFile(filepath.Join(Root, "evidence", c.Prop+".json"), b, 0o644)
 	}
 	for _, w := range c.inconcl {
-		fmt.Printf("INCONCLUSIVE property=%s %s\n", c.Prop, w)
+		fmt.Fprintf(Out, "INCONCLUSIVE property=%s %s\n", c.Prop, w)
 	}
-	fmt.Printf("%s %s tier=%s seed=%d evaluations=%d distinct_nontrivial=%d violations=%d wall=%.1fs\n",
+	fmt.Fprintf(Out, "%s %s tier=%s seed=%d evaluations=%d distinct_nontrivial=%d violations=%d wall=%.1fs\n",
 		c.Prop, verdict, c.Tier, c.Seed, c.evals, len(c.distinct), c.violations, time.Since(c.start).Seconds())
 	return code
 }
